@@ -62,6 +62,9 @@ func genDeleteStmt(r *Rng, init []KV, batch int) HistStmt {
 
 func genC11(seed uint64, i int, tier string) *Scenario {
 	r := NewRng(seed)
+	if i%2003 == 11 {
+		return genC11Big(r)
+	}
 	b := pickBatch(r)
 	sc := &Scenario{Cfg: Config{Batch: b, Cache: r.Bool(), Alias: r.Chance(0.4), Lazy: r.Chance(0.4)}}
 	// store sized relative to the batch: 0, <1, about 1, >1 batches
